@@ -62,6 +62,9 @@ var (
 	res      *caseResult
 	clock    int64
 	clockSet bool
+
+	skippedClock     int64
+	haveSkippedClock bool
 )
 
 func desync(msg string) {
@@ -73,7 +76,13 @@ func desync(msg string) {
 
 func pop(kind, name string) apiEvent {
 	for pos < len(cur.API) && (strings.HasPrefix(cur.API[pos].Kind, "env-") || (cur.API[pos].Kind == "clock0" && kind != "clock0")) {
-		pos++ // engine-side environment value (or a clock origin drawn by target code reading the real clock): skipped natively
+		if cur.API[pos].Kind == "clock0" {
+			// the clock origin was drawn by target code reading the clock before the harness did: keep it
+			if v, err := strconv.ParseUint(cur.API[pos].Val, 10, 64); err == nil {
+				skippedClock, haveSkippedClock = int64(v), true
+			}
+		}
+		pos++ // engine-side environment value: not consumed natively
 	}
 	if pos >= len(cur.API) {
 		if len(res.Failures) > 0 || cur.Repeat > 0 {
@@ -243,7 +252,11 @@ func Implies(a, b bool) bool { return !a || b }
 // Now is the model clock in nanoseconds.
 func Now() int64 {
 	if !clockSet {
-		clock = int64(popU("clock0", "t0"))
+		if haveSkippedClock {
+			clock = skippedClock
+		} else {
+			clock = int64(popU("clock0", "t0"))
+		}
 		clockSet = true
 	}
 	return clock
@@ -329,7 +342,7 @@ func ReplayMain(entries map[string]func()) {
 		}
 		seen := map[string]bool{}
 		for k := 0; k < reps; k++ {
-			cur, pos, clock, clockSet = c, 0, 0, false
+			cur, pos, clock, clockSet, haveSkippedClock = c, 0, 0, false, false
 			if f == nil {
 				res.Desync = "no such entry " + c.Entry
 				break
